@@ -67,6 +67,13 @@ VARIANTS = {
         "reg.remove('smoot')\n"),
         added=("foo", "code_length"), modified=("mile",), removed=("smoot",), system="cgs", len_unit="foo"),
 }
+VARIANTS["added"] = dict(src=(      # user symbols only, no default symbol modified or removed: the one custom
+    "reg = UnitRegistry()\n"        # registry that array pickling / from_json restore with EQUAL contents (removed
+    "reg.add('foo', 3.0, unyt.dimensions.length, prefixable=True)\n"      # defaults come back otherwise), i.e. where
+    "reg.add('code_length', 2.0, unyt.dimensions.length)\n"               # original and restored registry can be
+    "reg.add('tbar', 2.0, unyt.dimensions.temperature, offset=10.0)\n"),  # confused by anything keyed on contents
+    added=("foo", "code_length", "tbar"), modified=(), removed=(), system="mks", len_unit="foo")
+CUSTOM_VARIANTS = ("custom", "customcgs", "added")
 CUSTOM_TARGETS = ["foo", "kfoo", "tbar", "zang", "code_length", "code_mass", "mile", "Msun", "arcmin",
                   "smoot", "Tsun", "foo**2", "mile/hr"]
 
@@ -218,6 +225,36 @@ U_OPS = [
     ("u_registry_lookup", "q.registry[str(next(iter(q.expr.free_symbols)))][:3]", "str-repr"),
     ("u_system_name", "q.registry.unit_system.name", "base-default"),
 ]
+
+# ----------------------------------------------------------------------------------------------
+# "whose registry is the result bound to" battery.  Every operand of these operations is bound to
+# the registry of q (the object under test), so the result must be bound to that registry too:
+# `result.units.registry is q.units.registry` -- exactly as it is for the untouched original.  The
+# memoised unit rules of unyt/array.py (multiply / divide / sqrt / power / square / reciprocal /
+# preserve / difference) are shared by the original and the restored object, so the battery runs
+# with WARM memo tables in both orders (original first, restored first), while the two registries
+# still have equal contents.  Afterwards a fresh symbol is added to q's own registry and every
+# result is converted to it (lib_c11_rt.follow_new_symbol).
+# ----------------------------------------------------------------------------------------------
+BIND_Q_NAMES = {"add_self", "sub_self", "add_alt", "maximum_alt", "sum", "diff", "add_delta_degC",   # preserve / difference
+                "mul_self", "mul_m", "div_self", "div_s", "reciprocal",                                # multiply / divide
+                "pow2", "sqrt", "cbrt",                                                                # power / sqrt / cbrt
+                "to_alt", "in_cgs"}
+BIND_CUSTOM_NAMES = {"to_custom_foo", "to_custom_code_length", "add_custom_foo", "add_custom_kfoo"}
+BIND_U_NAMES = {"u_mul_self", "u_pow2", "u_div_self", "u_sqrt", "u_mul_m", "u_mul_number", "u_base_cgs", "u_reparse"}
+BIND_EXTRA = [
+    ("np_square", "np.square(q)", "mul"),            # square rule
+    ("np_reciprocal", "np.reciprocal(q)", "mul"),    # reciprocal rule
+    ("np_power2", "np.power(q, 2)", "mul"),
+    ("mul_number", "q*2.0", "mul"),
+    ("rdiv_number", "2.0/q", "mul"),
+    ("div_alt", "q/q.to(ALT)", "mul"),
+    ("neg", "-q", "add"),
+    ("abs", "abs(q)", "add"),
+]
+BIND_Q = [(n, s) for n, s, _ in Q_OPS if n in BIND_Q_NAMES] + [(n, s) for n, s, _ in BIND_EXTRA]
+BIND_Q_CUSTOM = [(n, s) for n, s, _ in Q_OPS_CUSTOM if n in BIND_CUSTOM_NAMES]
+BIND_U = [(n, s) for n, s, _ in U_OPS if n in BIND_U_NAMES]
 
 TEMP_GROUP = {"add": "temp-arith", "mul": "temp-mul", "tempmul": "temp-mul", "logmul": "log-mul"}
 LOG_GROUP = {"add": "log-arith", "mul": "log-mul", "tempmul": "temp-mul", "logmul": "log-mul"}
@@ -417,7 +454,7 @@ def run_battery(task, q, o, is_unit):
     else:
         Q, O = q, o
     if Q is not None:
-        ops = Q_OPS + (Q_OPS_CUSTOM if task["variant"] in ("custom", "customcgs") else [])
+        ops = Q_OPS + (Q_OPS_CUSTOM if task["variant"] in CUSTOM_VARIANTS else [])
         out.update(RT.run_ops([(n, s) for n, s, _ in ops], Q, O, extra))
         out.update(RT.run_ops([(n, s) for n, s, _ in U_OPS], Q.units, O.units, extra))
     else:
@@ -425,9 +462,105 @@ def run_battery(task, q, o, is_unit):
     return out
 
 
-OP_GROUP = {n: g for n, s, g in Q_OPS + Q_OPS_CUSTOM + U_OPS}
+OP_GROUP = {n: g for n, s, g in Q_OPS + Q_OPS_CUSTOM + U_OPS + BIND_EXTRA}
 OP_GROUP["u_make_quantity"] = "unit-arith"
-OP_SRC = {n: s for n, s, g in Q_OPS + Q_OPS_CUSTOM + U_OPS}
+OP_SRC = {n: s for n, s, g in Q_OPS + Q_OPS_CUSTOM + U_OPS + BIND_EXTRA}
+
+
+def bind_group(g, cls, name=""):
+    """key family of the result-registry checks = the memoised rule family that produced the result; sums and
+    differences of plain temperatures are a site of their own (_difference_units / _preserve_units special-case
+    them and hand out module-level delta units)"""
+    if g == "add" and cls.startswith("temp-") and cls != "temp-compound":
+        return "temp-difference" if (cls == "temp-offset" and name in TEMP_DIFF_OPS) else "temp-arith"
+    return PLAIN_GROUP.get(g, g)
+
+
+TEMP_DIFF_OPS = {"sub_self", "sub_alt", "sub_scaled", "diff"}     # degC - degC -> delta_degC (_difference_units)
+
+
+def bind_ops(task):
+    return BIND_Q + (BIND_Q_CUSTOM if task["variant"] in CUSTOM_VARIANTS else [])
+
+
+def run_bind_battery(task, q, o, is_unit, other):
+    """name -> (outcome, registry class of the result, result object); q, o, other as in run_battery /
+    RT.bound_to (other = the second object of the original/restored pair, None in the reference world)"""
+    v = VARIANTS[task["variant"]]
+    extra = {"ALT": task["alt"], "LEN_U": v["len_unit"], "DEFAULT_KEYS": DEFAULT_KEYS}
+    if is_unit:
+        try:
+            Q, O = 90.0 * q, 90.0 * o
+        except Exception:
+            return RT.run_bind(BIND_U, q, o, extra, other)
+    else:
+        Q, O = q, o
+    out = RT.run_bind(bind_ops(task), Q, O, extra, other)
+    out.update(RT.run_bind(BIND_U, Q.units, O.units, extra, other))
+    return out
+
+
+def bind_pack(res, q, follow=True, tag=""):
+    fol = RT.follow_new_symbol(res, q, tag) if follow else {}
+    return {n: (oc, cls, fol.get(n)) for n, (oc, cls, x) in res.items()}
+
+
+def bind_phase(task, is_unit):
+    """the registry battery, in a fresh world of its own (memo tables cleared when the world is built):
+      original, then restored (memo tables WARM)  -> reference (= the untouched original in a fresh
+                                                     world) and A (restored after the original)
+      memo tables cleared (as for order B of the main battery)
+      restored, then original (memo tables WARM)  -> B (restored used first), H (original after it)
+    Nothing changes a registry while the operations run, so the two registries have equal contents
+    throughout; the follow-up (new symbols in the own registry, convert the results kept from above)
+    comes after all of them, when task["follow"] is set (changing a registry makes it re-hash its whole
+    table: ~60 ms for the default table with every prefixed symbol of `from unyt import *`).
+    None when original and restored share ONE registry object (copy.copy, arr.copy, re-parse, loadtxt on
+    the default registry): nothing can then tell the two apart."""
+    fo = task.get("follow", True)
+    w = build_world(task)
+    if w.r is None or RT.registry_of(w.r) is RT.registry_of(w.o):
+        return None
+    a_o = run_bind_battery(task, w.o, w.o, is_unit, w.r)
+    a_r = run_bind_battery(task, w.r, w.o, is_unit, w.o)
+    RT.clear_caches()
+    b_r = run_bind_battery(task, w.r, w.o, is_unit, w.o)
+    b_o = run_bind_battery(task, w.o, w.o, is_unit, w.r)
+    return (bind_pack(a_o, w.o, fo, "ref_"), bind_pack(a_r, w.r, fo, "A_"), bind_pack(b_r, w.r, fo, "B_"),
+            bind_pack(b_o, w.o, fo, "H_"))
+
+
+BIND_WHO = {"A": "restored (after the original)", "B": "restored (used first)",
+            "H": "original after the restored object was used"}
+
+
+def bind_replay(task, name, order, is_unit, kind):
+    body = "BIND_Q = %r\nBIND_U = %r\nEXTRA = %s\n" % (bind_ops(task), BIND_U, EXTRA_SRC)
+    body += ("def lift(w):\n    Q, O = w['r'], w['o']\n"
+             + ("    try:\n        Q, O = 90.0 * Q, 90.0 * O\n    except Exception:\n        pass\n" if is_unit else "")
+             + "    return Q, O\n"
+             "def battery(Q, O, other):\n"
+             "    if isinstance(Q, Unit):\n        return run_bind(BIND_U, Q, O, EXTRA, other)\n"
+             "    out = run_bind(BIND_Q, Q, O, EXTRA, other)\n"
+             "    out.update(run_bind(BIND_U, Q.units, O.units, EXTRA, other))\n    return out\n"
+             "def pack(res, q, tag):\n    fol = follow_new_symbol(res, q, tag) if %r else {}\n" % bool(task.get("follow", True)) +
+             "    return {n: (oc, cls, fol.get(n)) for n, (oc, cls, x) in res.items()}\n"
+             "w = world()\nQ, O = lift(w)\n"
+             "a_o = battery(O, O, Q)\na_r = battery(Q, O, O)\n"          # original first, memo tables warm
+             "clear_caches()\n"
+             "b_r = battery(Q, O, O)\nb_o = battery(O, O, Q)\n"          # restored first, memo tables warm
+             "ref, got_A, got_B, got_H = [pack(res, x, tag)[%r] for res, x, tag in\n"
+             "                            ((a_o, O, 'ref_'), (a_r, Q, 'A_'), (b_r, Q, 'B_'), (b_o, O, 'H_'))]\n"
+             "got = got_%s\n" % (name, order))
+    body += ("print('operation %s:', %r, ' observed on: %s')\n"
+             "print('(outcome, registry the result is bound to, result converted to a unit added to the "
+             "operand\\'s own registry afterwards)')\n"
+             "print('original, fresh world :', ref)\nprint('observed               :', got)\n"
+             % (name, OP_SRC.get(name, "?"), BIND_WHO[order]))
+    cond = {"plain": "not same(ref[0], got[0])", "registry": "ref[1] != got[1]",
+            "follow": "not same(ref[2], got[2])"}[kind]
+    body += "if %s:\n    sys.exit(1)\n" % cond
+    return replay_for(task, body)
 
 
 def replay_for(task, body):
@@ -459,7 +592,7 @@ def op_replay(task, name, order, is_unit, whole_battery):
     if name.startswith("u_") and name != "u_make_quantity":
         lift += "Q, O = Q.units, O.units\n"
     if whole_battery:
-        ops = [(n, s) for n, s, _ in (Q_OPS + (Q_OPS_CUSTOM if task["variant"] in ("custom", "customcgs") else []))]
+        ops = [(n, s) for n, s, _ in (Q_OPS + (Q_OPS_CUSTOM if task["variant"] in CUSTOM_VARIANTS else []))]
         pre = "Q_OPS = %r\nU_OPS = %r\n" % (ops, [(n, s) for n, s, _ in U_OPS])
         run = ("def battery(Q, O):\n    out = run_ops(Q_OPS, Q, O, %s)\n"
                "    out.update(run_ops(U_OPS, Q.units, O.units, %s))\n    return out\n" % (EXTRA_SRC, EXTRA_SRC))
@@ -636,6 +769,42 @@ def run_task(task):
                 if not okv:
                     fail("C11[%s:trig]" % route, "np.sin(restored) = %r, SI oracle %r" % (st, want.tolist()),
                          ("op", task, "sin", tag, is_unit))
+        # ---- whose registry are the results bound to (warm memo tables, both orders), and do they
+        #      follow that registry when a symbol is added to it afterwards ----
+        ref, a_r, b_r, b_o = ((RT.registry_of(wA.r) is not RT.registry_of(wA.o) and bind_phase(task, is_unit))
+                              or ({}, {}, {}, {}))
+        for name in ref:
+            g = group_of(OP_GROUP[name], cls)
+            for order, got, fam in (("A", a_r, ""), ("B", b_r, ""), ("H", b_o, "history.")):
+                if name not in got:
+                    continue
+                (oc0, cls0, fol0), (oc1, cls1, fol1) = ref[name], got[name]
+                if not RT.same(oc0, oc1):
+                    # the operation itself answers differently: the defect site of the main battery
+                    kind = "plain"
+                    prec = ".precision" if RT.same_up_to_precision(oc0, oc1) else ""
+                    key = "C11[%s:%s%s%s]" % (route, fam, g, prec)
+                    what = "%s  %s -> original in a fresh world: %r ; %s: %r" % (
+                        name, OP_SRC[name], oc0, BIND_WHO[order], oc1)
+                elif cls0 != cls1:
+                    kind = "registry"
+                    key = "C11[%s:%sresult-registry.%s]" % (route, fam, bind_group(OP_GROUP[name], cls, name))
+                    what = ("%s  %s (memo tables warm) -> same value and unit %r, but the result of the original in a "
+                            "fresh world is bound to its operand's %s registry and the result of the %s is bound to "
+                            "the %s registry (result.units.registry is not q.units.registry); after adding a unit "
+                            "c11new_%s to the operand's registry, result.to(it): original %r, here %r" % (
+                                name, OP_SRC[name], oc1, cls0, BIND_WHO[order], cls1, name, fol0, fol1))
+                elif not (fol0 is None and fol1 is None) and not RT.same(fol0, fol1):
+                    kind = "follow"
+                    prec = ".precision" if RT.same_up_to_precision(fol0, fol1) else ""
+                    key = "C11[%s:%sresult-follows-registry.%s%s]" % (route, fam, bind_group(OP_GROUP[name], cls, name), prec)
+                    what = ("%s  res = %s; q.units.registry.add('c11new_%s', 8*res.units.base_value, res.units.dimensions); "
+                            "res.to('c11new_%s') -> original in a fresh world: %r ; %s: %r" % (
+                                name, OP_SRC[name], name, name, fol0, BIND_WHO[order], fol1))
+                else:
+                    continue
+                if key not in seen:
+                    fail(key, what, ("bind", task, name, order, is_unit, kind))
     except Exception:
         notes.append("driver error in %s/%s: %s" % (label, route, traceback.format_exc()[-600:]))
     return cases, fails, notes
@@ -669,6 +838,7 @@ CUSTOM_UNITS = ["foo", "kfoo", "tbar", "zang", "code_length", "mile", "Msun", "a
                 "mfoo", "code_mass", "code_mass/code_length**3", "zang/s", "Msun/kfoo**3",
                 "delta_degC", "statC", "K", "km", "dimensionless", "ft", "yd", "lat"]
 N_CUSTOM_CORE = 14
+ALL_PROTO_UNITS = ("degree", "degC", "delta_degC", "m", "dB")      # quick: pickle protocols 0-5
 CUSTOMCGS_UNITS = ["foo", "g*foo/s**2", "kfoo", "code_length", "mile", "m", "degree", "degC", "dB", "statC"]
 CGS_UNITS = ["m", "degree", "degC", "statC", "g", "s", "K", "delta_degF", "dB", "C", "T", "J", "km/hr", "sr",
              "dimensionless", "Msun/pc**3", "mK", "lat"]
@@ -754,14 +924,18 @@ def make_tasks(R):
             alt_cache[key] = alt_for(variant, unit)
         src = (U_ROUTES if is_unit else Q_ROUTES)[route]
         vals = make_values(random.Random(zlib.crc32(("%s|%s|%s" % (variant, unit, form)).encode())), unit)
+        # registry-mutating follow-up of the result-registry battery: always for the small registries; for
+        # the default table (expensive to re-hash) quick runs it on the core witnesses only
+        follow = (R.thorough or variant != "default"
+                  or (unit in CORE_UNITS and form in ("qf", "unit")
+                      and not (unit in ALL_PROTO_UNITS and route in ("pickle", "unit-pickle") and proto not in (2, 5))))
         tasks.append(dict(variant=variant, unit=unit, form=form, route=route, route_src=src, proto=proto,
-                          subject=subject_src(unit, form, vals), alt=alt_cache[key]))
+                          subject=subject_src(unit, form, vals), alt=alt_cache[key], follow=follow))
 
     qroutes = list(Q_ROUTES)
     uroutes = list(U_ROUTES)
     # 1. pinned witnesses of every behaviour class (deterministic part of the enumeration): the core
     #    set goes through every route, the secondary set through the main routes
-    ALL_PROTO_UNITS = ("degree", "degC", "delta_degC", "m", "dB")
     MAIN_ROUTES = ("pickle", "deepcopy", "savetxt", "unit-pickle", "unit-str")
     TWIN_ROUTES = ("pickle-nested", "deepcopy-nested", "unit-pickle-nested", "unit-copy(deep)")   # same library code as their twin
     pin_forms = ["qf", "a1f", "unit"] if not R.thorough else ["qf", "a1f", "a1c", "unit"]
@@ -826,7 +1000,8 @@ def make_tasks(R):
     # 4. other registries (deterministic)
     others = (("custom", CUSTOM_UNITS), ("cgs", CGS_UNITS if R.thorough else CGS_UNITS[:4]),
               ("customcgs", CUSTOMCGS_UNITS if R.thorough else CUSTOMCGS_UNITS[:2]),
-              ("fresh", ["m", "degree", "degC", "dB", "statC"] if R.thorough else ["degree", "degC"]))
+              ("fresh", ["m", "degree", "degC", "dB", "statC"] if R.thorough else ["degree", "degC"]),
+              ("added", ["code_length", "foo", "kfoo", "tbar", "foo**2/s", "m"] if R.thorough else ["code_length", "foo"]))
     for variant, units in others:
         for ui, unit in enumerate(units):
             core = R.thorough or variant != "custom" or ui < N_CUSTOM_CORE
@@ -881,6 +1056,13 @@ def run_all(R, tasks, t0):
             try:
                 whole = not minimal_reproduces(task, name, order, is_unit)
                 replay = op_replay(task, name, order, is_unit, whole)
+            except Exception as e:  # noqa
+                replay = None
+                R.notes.append("no replay for %s: %r" % (key, e))
+        elif isinstance(spec, tuple) and spec[0] == "bind":
+            _, task, name, order, is_unit, kind = spec
+            try:
+                replay = bind_replay(task, name, order, is_unit, kind)
             except Exception as e:  # noqa
                 replay = None
                 R.notes.append("no replay for %s: %r" % (key, e))
